@@ -154,7 +154,9 @@ def norm(v):
         return {"__r__": sorted((k, norm(x)) for k, x in v.__dict__.items())}
     if isinstance(v, bool):
         return ("b", v)
-    if isinstance(v, (int, float, str)) or v is None:
+    if isinstance(v, float):
+        return ("f", v)  # 40.0 is not 40: the type of a value is part of the value
+    if isinstance(v, (int, str)) or v is None:
         return v
     return ("obj", type(v).__name__)
 
